@@ -80,11 +80,13 @@ class Recorder:
         return (not self.default) if err.path in self.exceptions else self.default
 
 
-def verify_dir(root, top, path='', handler=None, last_mtime=None, xdev=True):
+def verify_dir(root, top, path='', handler=None, last_mtime=None, xdev=True, pre_find_timestamp=False):
     from gemato.recursiveloader import ManifestRecursiveLoader
     try:
         with time_limit():
             l = ManifestRecursiveLoader(os.path.join(root, top), allow_xdev=xdev)
+            if pre_find_timestamp:
+                l.find_timestamp()
             kw = {}
             if handler is not None:
                 kw['fail_handler'] = handler
@@ -96,12 +98,14 @@ def verify_dir(root, top, path='', handler=None, last_mtime=None, xdev=True):
     return {'ret': bool(ret), 'calls': [cps(p) for p in (handler.calls if handler is not None else [])]}
 
 
-def lookup(root, top, api, path, filename=None):
+def lookup(root, top, api, path, filename=None, pre_find_timestamp=False):
     from gemato.recursiveloader import ManifestRecursiveLoader
     from harness.textimpl import canon_entry
     try:
       with time_limit():
         l = ManifestRecursiveLoader(os.path.join(root, top))
+        if pre_find_timestamp:
+            l.find_timestamp()
         if api == 'find_path_entry':
             e = l.find_path_entry(path)
             return {'entry': canon_entry(e) if e is not None else None}
